@@ -29,7 +29,9 @@ outside the model like a missing file is for `runTextIO` - `runFileIO` covers th
 NOT modelled: directories and permissions (`File::create` failing → panic with exit status 101 AFTER
 nothing was printed; `exists()` is `false` for a dangling symlink or an unreadable directory), other
 processes (the `exists()` / `create` pair is check-then-act), a full disk, `--counter` (CliCounter.lean;
-it runs after the export and does not interact with it).
+it runs after the export and does not interact with it). Paths are compared as TEXTS: no normalisation, links
+or case folding - one path text per file (`x.json` and `./x.json` are different keys here, while `Path::exists`
+would see one file; "never overwrites" holds in both, for different reasons).
 
 The import arm is claimed for texts that ARE exports of a well-formed object (`C14` round trip): on an
 arbitrary JSON text (handles beyond the node table, fewer names than conditions, cyclic node table)
